@@ -9,6 +9,7 @@ Requests (strings that may contain blanks/commas/anything are hex-encoded UTF-8,
            | `err <parse|precheck|link|panic> exit=1` | `err usage exit=2`
   vars <cval-hex>                       reply: H | T | HT | None
   cell <sym-hex> <rank> <tor-hex>*      reply: hex of the cell text (`rmodStr`, torsion texts get sorted here)
+  readcell <sym-hex> <cell-hex>         reply: `<rank> <tor-hex>:<multiplicity> …` (`readCell`, the verified reader) | unreadable
 -/
 namespace Yuiv.Drv.C20
 open Yuiv Yuiv.C20 Yuiv.Drv
@@ -95,6 +96,14 @@ def handle (t : List String) : String :=
     | some sym, some rank, some tors =>
       tohex (String.ofList (rmodStr sym.toList rank ((sortTexts tors).map String.toList)))
     | _, _, _ => "bad-request"
+  | ["readcell", sym, cell] =>
+    match unhex sym, unhex cell with
+    | some sym, some cell =>
+      match readCell sym.toList cell.toList with
+      | some (r, ts) =>
+        String.intercalate " " (toString r :: ts.map (fun (t, k) => tohex (String.ofList t) ++ ":" ++ toString k))
+      | none => "unreadable"
+    | _, _ => "bad-request"
   | _ => "bad-request"
 
 end Yuiv.Drv.C20
